@@ -1422,7 +1422,10 @@ class HFIX(Command):
         HFIX mn U[#] d[#] atomnames
         """
         super(HFIX, self).__init__(shx, spline)
-        self.params, self.atoms = self._parse_line(spline, intnums=True)
+        self.params, self.atoms = self._parse_line(spline)
+        if self.params:
+            # mn is an integer number, U and d are not:
+            self.params[0] = int(self.params[0])
 
     def __repr__(self):
         return f"HFIX {' '.join([str(x) for x in self.params]) if self.params else ''} " \
